@@ -54,6 +54,11 @@ func GenerateRules(t *rapid.T, id string, avoid map[string]string) *Schema {
 			if r.MinItems == nil && r.MaxItems == nil && !r.Unique {
 				r.MinItems = u64p(1)
 			}
+			if !r.Unique && g.oneIn(3, "uniquefalse") {
+				// the rule written out with its default value: set, but not a constraint
+				r.UniqueFalse = true
+				g.tagf("rule:repeated:unique_false")
+			}
 			f.Rules = r
 			g.tagf("rule:repeated")
 		default:
